@@ -52,6 +52,9 @@ func c14MkRec(v int) c14Rec {
 	return r
 }
 
+// c14Outcome, when set, receives the outcome class of every executed history.
+var c14Outcome func(string)
+
 func c14Exec(hist []c14Op) (string, bool, []lib.Problem) {
 	if len(hist) > 0 && hist[0].Elem == "rec" {
 		return c14ExecT(hist, c14MkRec)
@@ -249,6 +252,9 @@ func c14ExecT[T any](hist []c14Op, mk func(int) T) (string, bool, []lib.Problem)
 	if hasCkpt {
 		ck = fmt.Sprint(ckptModel)
 	}
+	if c14Outcome != nil {
+		c14Outcome(fmt.Sprintf("after-%s elem=%q size=%d/%d ckpt=%v", hist[len(hist)-1].Op, hist[0].Elem, len(model), capacity, hasCkpt))
+	}
 	return fmt.Sprintf("cap%d%s %v p%d ck%s", capacity, hist[0].Elem, model, pushes%3, ck), false, nil
 }
 
@@ -259,9 +265,10 @@ func init() {
 		Rule: "explicit-state BFS over histories of {push(auto value),pop,peek,updatefront,clear,mutate-copy,snapshot/restore,JSON pointer/value round trip into a fresh buffer,restore over capacity,restore short,keep the JSON text,decode the kept text into the live buffer (rollback),decode the current text into another used buffer} " +
 			"on the real queueing.Buffer[T] for T in {int, a struct with omitempty scalar, map and pointer members} and capacities 0..3; every transition replays the history on a fresh buffer and compares Size/Capacity/Name/CanPush/Elements/Peek and every return value with a Go slice (deep equality); " +
 			"state = (element type, capacity, contents, push counter mod 3, kept contents)",
-		MinOutcomes: 0,
+		MinOutcomes: 40,
 		Assumptions: []string{"two element types; hooks not attached (hook firing is covered by C33)"},
 		Run: func(c *lib.Ctx) {
+			c14Outcome = c.Outcome
 			lib.BFS(c, lib.BFSConfig[c14Op]{
 				Ops: func(hist []c14Op) []c14Op {
 					if len(hist) == 0 {
